@@ -82,6 +82,8 @@ class Builder:
                 return identity(b(T))
             return {'wrap': m}, bb, v
         pv = r.choice([0, 'p', [1, 'q'], (2, 3), {'k': 1}, None])
+        if kind == 'NoHash':
+            self.used_nohash = True     # NoHash removes its value from the identifier by design (jug.unsafe): collisions are the user's choice
 
         def bw(T, pv=pv, kind=kind):
             from jug.utils import CustomHash
@@ -281,6 +283,34 @@ def check(run):
                 run.fail('view-hash-changes', 'the identifier of the view %s changed after it was evaluated' % json.dumps(m)[:300], rp)
             if reported2 != reported:
                 run.fail('view-deps-change', 'after evaluating the view %s a consumer depends on %s instead of %s' % (json.dumps(m)[:300], reported2, reported), rp)
+            # two consumers that differ only in the view they receive are different invocations: the second must not be taken for the first
+            if gerr is None and ci % 2 == 0 and not getattr(B, 'used_nohash', False):
+                try:
+                    m2, build2, pv2 = B.gen(3)
+                    obj2 = build2(T)
+                    v2 = value(obj2)
+                except Exception:
+                    obj2 = None
+                # containers are left out here: undelimited nested sequences are the known finding K1 of C08
+                plain_views = not any(k in json.dumps([m, m2]) for k in ('"list"', '"tuple"', '"dict"'))
+                if obj2 is not None and not isinstance(pv2, Exception) and lib.canon(v2) != lib.canon(got) and not getattr(B, 'used_nohash', False) and plain_views:
+                    run.count('sibling_consumer_pairs')
+                    c1, c2 = Task(lib.same, obj), Task(lib.same, obj2)
+                    c1.run()
+                    rp2 = dict(rp, arg2=m2)
+                    if c2.can_load():
+                        v_loaded = value(c2)
+                        run.fail('consumer-takes-sibling-result', 'same(%s) was executed; same(%s) - a different view with a different value - is reported as already computed and loads %s instead of %s'
+                                 % (json.dumps(m)[:200], json.dumps(m2)[:200], lib.canon(v_loaded)[:80], lib.canon(['same', v2])[:80]), rp2)
+                    else:
+                        c2.run()
+                        if lib.canon(value(c2)) != lib.canon(['same', v2]) or lib.canon(value(c1)) != lib.canon(['same', got]):
+                            run.fail('consumer-value', 'consumers of the views %s / %s hold %s / %s' % (json.dumps(m)[:150], json.dumps(m2)[:150], lib.canon(value(c1))[:80], lib.canon(value(c2))[:80]), rp2)
+                    for c_ in (c1, c2):
+                        try:
+                            store.remove(c_.hash())
+                        except Exception:
+                            pass
             # not stored
             keys = set(store.list())
             if keys - set(hashes):
@@ -296,6 +326,57 @@ def check(run):
                 run.sample({'task_values': [lib.canon(v) for v in values], 'expression': m, 'value': lib.canon(got), 'dependencies': reported})
             for h in hashes:
                 store.remove(h)
+        # 2a'. chains that differ in ONE step (first, intermediate or last) over the same root: consumers must be different invocations
+        for ci in range(120 if quick else 1500):
+            jugenv.reset(store)
+            kind = rng.choice(['ll', 'dl', 'lll', 'sl'])
+            base = [[rng.randint(0, 99) for _ in range(3)] for _ in range(3)]
+            if kind == 'll':
+                V = base
+                steps = lambda: [rng.randrange(3), rng.randrange(3)]
+            elif kind == 'dl':
+                V = {'a': base[0], 'b': base[1], 'c': base[2]}
+                steps = lambda: [rng.choice('abc'), rng.randrange(3)]
+            elif kind == 'lll':
+                V = [base, [list(reversed(r_)) for r_ in base], [[x + 100 for x in r_] for r_ in base]]
+                steps = lambda: [rng.randrange(3), rng.randrange(3), rng.randrange(3)]
+            else:
+                V = base + [[rng.randint(0, 99) for _ in range(3)]]
+                steps = lambda: [slice(*sorted(rng.sample(range(5), 2))), 0, rng.randrange(3)]
+            s1 = steps()
+            s2 = list(s1)
+            pos = rng.randrange(len(s1))
+            s2[pos] = steps()[pos]
+
+            def apply(x, ss):
+                for st_ in ss:
+                    x = x[st_]
+                return x
+            try:
+                e1, e2 = apply(V, s1), apply(V, s2)
+            except Exception:
+                continue
+            if s1 == s2 or lib.canon(e1) == lib.canon(e2):
+                continue
+            root = Task(lib.lit, 5000000 + ci, V)
+            root.run()
+            c1, c2 = Task(lib.same, apply(root, s1)), Task(lib.same, apply(root, s2))
+            run.count('one_step_chain_pairs')
+            run.case(('chain-pair', ci, run.seed), nontrivial=True)
+            rp = {'kind': 'chain-pair', 'value': V, 'steps1': [repr(x) for x in s1], 'steps2': [repr(x) for x in s2]}
+            c1.run()
+            if c2.can_load():
+                run.fail('consumer-takes-sibling-result', 'root value %s: same(root%s) was executed; same(root%s), whose argument is %s instead of %s, is reported as already computed (identifiers %s / %s)'
+                         % (V, ''.join('[%r]' % x for x in s1), ''.join('[%r]' % x for x in s2), e2, e1, c1.hash()[:10], c2.hash()[:10]), rp)
+            else:
+                c2.run()
+                if lib.canon(value(c2)) != lib.canon(['same', e2]) or lib.canon(value(c1)) != lib.canon(['same', e1]):
+                    run.fail('consumer-value', 'consumers of root%s / root%s hold %s / %s' % (s1, s2, lib.canon(value(c1))[:80], lib.canon(value(c2))[:80]), rp)
+            for t_ in (root, c1, c2):
+                try:
+                    store.remove(t_.hash())
+                except Exception:
+                    pass
         # 2b. mapped sequences and their slices as views
         from jug.mapreduce import map as jmap
         for n, step in itertools.product(range(0, 10), (2, 3, 4)):
